@@ -611,6 +611,8 @@ def parse_unit(path):
             elif w[0] == "item":
                 opts = dict(kv.split("=", 1) for kv in w[3:])
                 cur = ("item", {"file": w[1], "name": w[2], "opts": opts}); unit["parts"].append(cur)
+            elif w[0] == "use":
+                cur = ("use", {"unit": w[1]}); unit["parts"].append(cur)
             elif w[0] == "fn":
                 rest = s[2:].split(None, 3)
                 optstr = rest[3] if len(rest) > 3 else ""
@@ -652,7 +654,7 @@ def find_fn(file, qname):
     return c[nth - 1]
 
 
-def splice_fn(fs, stats, canary=False):
+def splice_fn(fs, stats, canary=False, stub=False):
     """returns (text, segments) where segments = list of (text, origin) with origin in
     ('code', file, line) | ('spec', fnname, what)"""
     it = find_fn(fs.file, fs.name)
@@ -747,7 +749,7 @@ def splice_fn(fs, stats, canary=False):
         inserts.append((code[body_open].end, "\nproof { assert(false); } // CANARY fn\n", "canary"))
     # --- loops
     loops = _loops(code[body_open:body_close + 1])
-    for n, ltext in fs.loops.items():
+    for n, ltext in ({} if stub else fs.loops).items():
         if n > len(loops):
             raise ExtractError("%s::%s has %d loops, contract refers to loop %d" % (fs.file, fs.name, len(loops), n))
         kw, bo, bc = loops[n - 1]
@@ -756,8 +758,12 @@ def splice_fn(fs, stats, canary=False):
             inserts.append((code[body_open + bo].end, "\nproof { assert(false); } // CANARY loop %d\n" % n, "canary"))
     for n in range(1, len(loops) + 1):
         pass
+    if stub:
+        # contract-only copy: signature + spec, body replaced (used by `#! use UNIT`: the contract is proved in that unit)
+        inserts = [x for x in inserts if x[2] == "spec"]
+        spans.append((code[body_open].start, code[body_close].end, "{ unimplemented!() }"))
     # --- statement anchors
-    for where, n, stmt, ptext in fs.anchors:
+    for where, n, stmt, ptext in ([] if stub else fs.anchors):
         pat = [t.text for t in lex(stmt)]
         hits = []
         for j in range(body_open, body_close - len(pat) + 2):
@@ -784,6 +790,8 @@ def splice_fn(fs, stats, canary=False):
         pos = e
     code_seg(pos, len(text))
     header = ""
+    if stub:
+        attrs = "verifier::external_body"
     if attrs:
         header = "".join("#[%s]\n" % a for a in attrs.split(";") if a)
     return it, header, segs
@@ -801,71 +809,85 @@ def build(unit_path, prelude_paths, canary=False):
 
     emit("// GENERATED by /verif/tools/extract.py from %s -- do not edit\n" % unit_path, {"origin": "gen"})
     emit("#![allow(unused_imports, unused_variables, unused_mut, dead_code, unused_assignments, non_snake_case, unreachable_patterns, unused_parens, unused_braces, unreachable_code)]\n", {"origin": "gen"})
-    for feat in unit.get("features", []):
+    feats = list(unit.get("features", []))
+    for kind, part in unit["parts"]:
+        if kind == "use":
+            feats += parse_unit(os.path.join(os.path.dirname(unit_path), part["unit"] + ".vu")).get("features", [])
+    for feat in sorted(set(feats)):
         emit("#![feature(%s)]\n" % feat, {"origin": "gen"})
     emit("use vstd::prelude::*;\nuse vstd::std_specs::iter::IteratorSpec;\nuse std::collections::{BTreeMap, BTreeSet, VecDeque};\nuse std::borrow::Cow;\nuse std::cmp::Ordering;\nverus! {\n", {"origin": "gen"})
     for p in prelude_paths:
         emit(open(p).read() + "\n", {"origin": "prelude", "file": p})
-    for kind, part in unit["parts"]:
-        if kind == "raw":
-            emit(part.get("text", "") + "\n", {"origin": "unit-raw", "file": unit_path, "line": part["line"]})
-        elif kind == "consts":
-            src, items = items_of(part["file"])
-            names = part["names"]
-            for it in items:
-                if it.kind == "const" and (it.name in names or names == ["*"]):
-                    if names == ["*"] and re.search(r"&str|char|\[", it.text):
-                        continue
-                    t = rule_R0(it.text, stats)
-                    t = re.sub(r"^\s*(pub\s+)?", "pub ", t, count=1)
-                    if re.match(r"pub\s+static\b", t):
-                        t = rule_R12(t, stats)
-                    emit(t + "\n", {"origin": "code", "file": part["file"], "line": it.line, "fn": it.name})
-            missing = [n for n in names if n != "*" and not any(it.kind == "const" and it.name == n for it in items)]
-            if missing:
-                raise ExtractError("consts %s not found in %s" % (missing, part["file"]))
-        elif kind == "item":
-            src, items = items_of(part["file"])
-            c = [it for it in items if it.kind in ("struct", "enum", "type") and it.name == part["name"]]
-            if not c:
-                raise ExtractError("item %s not found in %s" % (part["name"], part["file"]))
-            t = rule_R0(c[0].text, stats)
-            t = re.sub(r"^\s*(pub\s+)?", "pub ", t, count=1)
-            t = re.sub(r"(\n\s*)(?=[a-z_]+\s*:)", r"\1pub ", t) if c[0].kind == "struct" and part["opts"].get("pubfields", "1") == "1" else t
-            t = t.replace("pub pub ", "pub ")
-            pre = part["opts"].get("attrs", "")
-            if pre:
-                t = "".join("#[%s]\n" % a for a in pre.split(";")) + t
-            emit(t + "\n", {"origin": "code", "file": part["file"], "line": c[0].line, "fn": part["name"]})
-        elif kind == "fn":
-            fs = part
-            it, header, segs = splice_fn(fs, stats, canary)
-            qn = fs.name
-            meta_base = {"file": fs.file, "fn": qn, "tags": fs.tags}
-            wrap_open = wrap_close = ""
-            if it.owner:
-                hdr = it.impl_header
-                if getattr(it, "is_trait_impl", False):
-                    if "R10" in fs.opts.get("rules", ""):
-                        # impl<'a> Iterator for X<'a>  ->  impl<'a> X<'a>
-                        hdr = re.sub(r"^(impl\s*(<[^>]*>)?)\s*.*?\bfor\b\s*", r"\1 ", hdr, flags=re.S)
-                    # else keep the trait impl header as is
-                wrap_open, wrap_close = hdr + " {\n", "}\n"
-            emit(wrap_open + header, {"origin": "gen"})
-            # code segments carry source line numbers
-            line = it.line
-            for text, org in segs:
-                if org[0] == "code":
-                    emit(text, dict(meta_base, origin="code", line=line, rewritten=True))
-                    # line tracking is approximate after rewrites; exact when no rule changed line counts
-                    line += text.count("\n")
-                else:
-                    emit(text, dict(meta_base, origin="spec", what=org[1]))
-            emit("\n" + wrap_close, {"origin": "gen"})
-            fns.append({"file": fs.file, "fn": qn, "tags": fs.tags, "line": it.line,
-                        "sha256": hashlib.sha256(it.text.encode()).hexdigest(),
-                        "rules": fs.opts.get("rules", ""), "has_spec": bool(fs.spec.strip()),
-                        "nloops": len(fs.loops)})
+    def process(unit, unit_path, stub):
+        for kind, part in unit["parts"]:
+            if kind == "use":
+                sub_path = os.path.join(os.path.dirname(unit_path), part["unit"] + ".vu")
+                sub = parse_unit(sub_path)
+                emit("// ---- contracts imported from unit %s (proved there; bodies replaced by external_body stubs) ----\n" % part["unit"], {"origin": "gen"})
+                process(sub, sub_path, True)
+                emit("// ---- end of unit %s ----\n" % part["unit"], {"origin": "gen"})
+            elif kind == "raw":
+                emit(part.get("text", "") + "\n", {"origin": "unit-raw", "file": unit_path, "line": part["line"]})
+            elif kind == "consts":
+                src, items = items_of(part["file"])
+                names = part["names"]
+                for it in items:
+                    if it.kind == "const" and (it.name in names or names == ["*"]):
+                        if names == ["*"] and re.search(r"&str|char|\[", it.text):
+                            continue
+                        t = rule_R0(it.text, stats)
+                        t = re.sub(r"^\s*(pub\s+)?", "pub ", t, count=1)
+                        if re.match(r"pub\s+static\b", t):
+                            t = rule_R12(t, stats)
+                        emit(t + "\n", {"origin": "code", "file": part["file"], "line": it.line, "fn": it.name})
+                missing = [n for n in names if n != "*" and not any(it.kind == "const" and it.name == n for it in items)]
+                if missing:
+                    raise ExtractError("consts %s not found in %s" % (missing, part["file"]))
+            elif kind == "item":
+                src, items = items_of(part["file"])
+                c = [it for it in items if it.kind in ("struct", "enum", "type") and it.name == part["name"]]
+                if not c:
+                    raise ExtractError("item %s not found in %s" % (part["name"], part["file"]))
+                t = rule_R0(c[0].text, stats)
+                t = re.sub(r"^\s*(pub\s+)?", "pub ", t, count=1)
+                t = re.sub(r"(\n\s*)(?=[a-z_]+\s*:)", r"\1pub ", t) if c[0].kind == "struct" and part["opts"].get("pubfields", "1") == "1" else t
+                t = t.replace("pub pub ", "pub ")
+                pre = part["opts"].get("attrs", "")
+                if pre:
+                    t = "".join("#[%s]\n" % a for a in pre.split(";")) + t
+                emit(t + "\n", {"origin": "code", "file": part["file"], "line": c[0].line, "fn": part["name"]})
+            elif kind == "fn":
+                fs = part
+                it, header, segs = splice_fn(fs, stats, canary and not stub, stub)
+                qn = fs.name
+                meta_base = {"file": fs.file, "fn": qn, "tags": fs.tags}
+                wrap_open = wrap_close = ""
+                if it.owner:
+                    hdr = it.impl_header
+                    if getattr(it, "is_trait_impl", False):
+                        if "R10" in fs.opts.get("rules", ""):
+                            # impl<'a> Iterator for X<'a>  ->  impl<'a> X<'a>
+                            hdr = re.sub(r"^(impl\s*(<[^>]*>)?)\s*.*?\bfor\b\s*", r"\1 ", hdr, flags=re.S)
+                        # else keep the trait impl header as is
+                    wrap_open, wrap_close = hdr + " {\n", "}\n"
+                emit(wrap_open + header, {"origin": "gen"})
+                # code segments carry source line numbers
+                line = it.line
+                for text, org in segs:
+                    if org[0] == "code":
+                        emit(text, dict(meta_base, origin="stub" if stub else "code", line=line, rewritten=True))
+                        # line tracking is approximate after rewrites; exact when no rule changed line counts
+                        line += text.count("\n")
+                    else:
+                        emit(text, dict(meta_base, origin="spec", what=org[1]))
+                emit("\n" + wrap_close, {"origin": "gen"})
+                if stub:
+                    continue
+                fns.append({"file": fs.file, "fn": qn, "tags": fs.tags, "line": it.line,
+                            "sha256": hashlib.sha256(it.text.encode()).hexdigest(),
+                            "rules": fs.opts.get("rules", ""), "has_spec": bool(fs.spec.strip()),
+                            "nloops": len(fs.loops)})
+    process(unit, unit_path, False)
     emit("\n} // verus!\nfn main() {}\n", {"origin": "gen"})
     # flatten to lines: every generated line is attributed to the chunk(s) overlapping it
     gen = "".join(t for t, _ in out)
